@@ -27,6 +27,7 @@ HIGH = {'c0': ['g0'], 'c1': ['g1'], 'c2': ['g2', 'g5'], 'c3': ['g3'],
 
 
 BASE_GENES = list(GENES)
+BASE_LEAVES = list(LEAVES)
 
 
 def setup(case, mode):
@@ -35,6 +36,9 @@ def setup(case, mode):
     # informative genes come last
     GENES[:] = [f'silent{i}' for i in range(case.get('wide_genes', 0))] \
         + BASE_GENES
+    # optionally a smaller taxonomy (two leaves = a single pair: worker
+    # chunks of exactly one pair)
+    LEAVES[:] = list(case.get('leaves', BASE_LEAVES))
     import cell_type_mapper.diff_exp.p_value_mask as PV
     import cell_type_mapper.diff_exp.p_value_markers as PVM
     for m in (PV, PVM):
